@@ -27,11 +27,11 @@ type vTopo struct{ topo.Store }
 
 func vTopoObject(id topoapi.ID) *topoapi.Object {
 	o := &topoapi.Object{ID: id, Type: topoapi.Object_ENTITY, Obj: &topoapi.Object_Entity{Entity: &topoapi.Entity{}}}
+	ty := "tz"
 	if id == "t1" {
-		_ = o.SetAspect(&topoapi.Configurable{Type: "ty", Version: "1"})
-	} else {
-		_ = o.SetAspect(&topoapi.Configurable{Type: "tz", Version: "1"})
+		ty = "ty"
 	}
+	_ = o.SetAspect(&topoapi.Configurable{Type: ty, Version: "1"}) // one call: the aspect value is merged, not the call
 	return o
 }
 
